@@ -268,6 +268,21 @@ static int check_indexed(AsmContext *asm_context, struct _operand *operand)
 {
   uint8_t post_byte = operand->index_reg << 5;
 
+  // An offset that couldn't be evaluated in pass 1 (forward reference) was
+  // given the 16 bit form there.  The post byte written by pass 1 is still
+  // in memory: pass 2 has to keep that size or every later label moves.
+  if (asm_context->pass == 2 &&
+      (operand->type == OPERAND_INDEX_OFFSET_PC ||
+       operand->type == OPERAND_INDEX_OFFSET_REG))
+  {
+    const uint8_t pass_1 = asm_context->memory_read(asm_context->address);
+
+    if ((pass_1 & 0x8f) == 0x89 || (pass_1 & 0x8f) == 0x8d)
+    {
+      operand->use_long = 1;
+    }
+  }
+
   if (operand->type == OPERAND_INDEX_OFFSET_PC)
   {
     post_byte = 0x8c;
